@@ -71,6 +71,10 @@ type SugarDB struct {
 	// Global read-write mutex for entire store.
 	storeLock *sync.RWMutex
 
+	// Mutex held for the whole execution of a command, so that the keyspace calls a handler
+	// composes (read, then write) are not interleaved with those of another command.
+	commandLock sync.Mutex
+
 	// Data store to hold the keys and their associated data, expiry time, etc.
 	// The int key on the outer map represents the database index.
 	// Each database has a map that has a string key and the key data (value and expiry time).
